@@ -53,7 +53,7 @@ class C19(vlib.Spec):
         return [dict(c, k="compile") for c in P.gen_programs(rng, tier, n)]
 
     def n_cases(self, tier):
-        return 500 if tier == "quick" else 6000
+        return 500 if tier == "quick" else 4000
 
     def to_coq(self, case, res):
         if not isinstance(res, dict) or "flat" not in res:
